@@ -774,16 +774,31 @@ class TermEngine:
                 # a test of a private predicate helper (`fn is_stored_negated(x) { a(x) || b(x) || c(x) }`): knowing its
                 # value is knowing the value of its body with the arguments in place
                 try:
-                    hs = [h for h in CURRENT.resolve(c[1]) if h.kind != "Closure"]
+                    hs = [h for h in CURRENT.resolve(c[1]) if h.kind != "Closure" or c[1].name in ("call", "call_mut", "call_once")]
                 except Exception:
                     hs = []
+                # (the predicates of the pointer types themselves — is_neg, is_false, .. — are known to the rules by
+                # contract and stay opaque)
                 if len(hs) == 1 and hs[0].terms is not self and hs[0].terms.ret is not None and \
-                        (hs[0].locals[0]["s"] if hs[0].locals else "") == "bool" and not hs[0].cfg.loop_headers:
+                        (hs[0].locals[0]["s"] if hs[0].locals else "") == "bool" and not hs[0].cfg.loop_headers and \
+                        not (hs[0].impl_self or "").endswith(("BddPtr", "SddPtr", "Literal", "VarLabel", "PartialModel")):
                     from . import canon as _canon
                     hte = hs[0].terms
                     from .base import strip as _strip
                     body = _strip(hte.ret)
                     ps = {i + 1: a for i, a in enumerate(c[2])}
+                    ups = {}
+                    if hs[0].kind == "Closure" and c[1].name in ("call", "call_mut", "call_once") and len(c[2]) == 2:
+                        # a predicate bound to a local closure: its parameters are the elements of the argument tuple,
+                        # its captures those of the closure literal
+                        tup = _strip(c[2][1])
+                        clo = _strip(c[2][0])
+                        while isinstance(clo, tuple) and clo and clo[0] in ("ref", "deref"):
+                            clo = _strip(clo[1])
+                        if isinstance(tup, tuple) and tup[:2] == ("agg", "tuple"):
+                            ps = {i + 2: a for i, a in enumerate(tup[4])}
+                        if isinstance(clo, tuple) and clo and clo[0] == "agg" and clo[1] == "closure" and len(clo) > 5 and clo[5]:
+                            ups = dict(zip(clo[5], clo[4]))
                     if isinstance(body, tuple) and body and body[0] == "phi":
                         # a short-circuit chain returns through a join: the value pins the alternative, and the tests
                         # that dominate that alternative inside the helper hold for the arguments
@@ -798,12 +813,12 @@ class TermEngine:
                             pb, alt = cands[0]
                             pbn = int(str(pb).replace("bb", "")) if not isinstance(pb, int) else pb
                             if not (isinstance(alt, tuple) and alt and alt[0] == "const") and not _canon.has_unknown(alt):
-                                new.append((_canon.subst(alt, ps), v, None, d))
+                                new.append((_canon.subst(alt, ps, ups), v, None, d))
                             for (c2, v2, vm2, _d2) in hte.facts_at(pbn):
                                 if not _canon.has_unknown(c2):
-                                    new.append((_canon.subst(c2, ps), v2, vm2, d))
+                                    new.append((_canon.subst(c2, ps, ups), v2, vm2, d))
                     elif not _canon.has_unknown(body):
-                        new.append((_canon.subst(body, ps), v, None, d))
+                        new.append((_canon.subst(body, ps, ups), v, None, d))
             elif c[0] == "gamma" and len(c[2]) == 2:
                 cands = []
                 for lab, alt in c[2]:
@@ -1038,12 +1053,113 @@ def elide_forwarders(facts):
     return out
 
 
+# Private helpers the rules anchor on, each described by its *role* next to a stable (public API) entry point, so that a
+# helper that was merely renamed is found again.  ("rec", module, entry, name): the one self-recursive crate function
+# that `entry` calls.  ("callers", module, {callers}, name): the one private function called from exactly these functions.
+ROLES = [
+    ("rec", "builder::bdd::robdd", "smooth", "smooth_helper"),
+    ("rec", "builder::bdd", "ite", "ite_helper"),
+    ("rec", "builder::bdd::robdd", "cond_helper", "cond_with_alloc"),
+    ("rec", "builder::decision_nnf::builder", "compile_cnf_topdown", "topdown_h"),
+    ("rec", "builder::decision_nnf::builder", "condition", "cond_helper"),
+    ("rec", "repr::bdd", "bb", "bb_h"),
+    ("rec", "repr::bdd", "marginal_map", "marginal_map_h"),
+    ("rec", "repr::bdd", "meu", "meu_h"),
+    ("rec", "repr::bdd", "bdd_fold", "bdd_fold_h"),
+    ("rec", "serialize::ser_bdd", "from_bdd", "serialize_helper"),
+    ("rec", "serialize::ser_sdd", "from_sdd", "serialize_helper"),
+    ("callers", "repr::bdd", ("bb", "bb_h"), "bb_ub"),
+    ("callers", "repr::bdd", ("meu", "meu_h"), "eu_ub"),
+    ("callers", "repr::bdd", ("marginal_map", "marginal_map_h"), "marginal_map_eval"),
+    ("callers", "repr::unit_prop", ("decide", "new"), "update_hash_and_sat_set"),
+    ("callers", "builder::bdd::robdd", ("condition_model",), "cond_model_h"),
+    ("callers", "builder::bdd::robdd", ("ite_helper",), "condition_essential"),
+    ("callers", "builder::decision_nnf::builder", ("topdown_h",), "conjoin_implied"),
+]
+
+
+def resolve_renamed(facts):
+    """Normalisation of the program model: a private helper that a rule anchors on and that is no longer there under its
+    name is looked up by its role (ROLES); when exactly one function fills the role it is given the expected name —
+    everywhere in the fact file, so call sites and recursion follow.  A helper that was renamed is the same helper."""
+    import json as _json
+    import re as _re
+    out = dict(facts)
+    last = lambda p_: p_.rsplit("::", 1)[-1]
+    for unit, j in facts.items():
+        if not unit.endswith("-lib.json"):
+            continue
+        for _round in range(3):                 # a rename can make another role resolvable (bb_h before bb_ub)
+            fns = [f for f in j.get("fns", []) if "{closure" not in f["path"]]
+            names = {}
+            for f in fns:
+                names.setdefault(last(f["path"]), []).append(f)
+            # local call graph by last segment
+            calls, calls_full = {}, {}
+            for f in j.get("fns", []):
+                owner = f["path"].split("::{closure")[0]
+                for b in f.get("blocks", []):
+                    t = b["term"]
+                    if t["k"] == "call":
+                        fr = t.get("fn") or {}
+                        if fr.get("local") or fr.get("res_local"):
+                            for pth in (fr.get("res"), fr.get("def")):
+                                if pth:
+                                    calls.setdefault(owner, set()).add(last(pth.split("::{closure")[0]))
+                                    calls_full.setdefault(owner, set()).add(norm(pth.split("::{closure")[0]))
+            by_owner_last = {}
+            for o, cs_ in calls.items():
+                by_owner_last.setdefault(last(o), set()).update(cs_)
+            renames = []
+            for role in ROLES:
+                kind, module, key, want = role
+                if any(module in f["path"] for f in names.get(want, [])):
+                    continue
+                cands = []
+                if kind == "rec":
+                    entries = [f for f in names.get(key, []) if module in f["path"]]
+                    callee_names = set()
+                    for e in entries:
+                        callee_names |= calls.get(e["path"], set())
+                    for n_ in callee_names:
+                        for g in names.get(n_, []):
+                            # self-recursive, or mutually recursive with the entry point (`ite` <-> its expansion step)
+                            if module in g["path"] and n_ != key and (norm(g["path"]) in calls_full.get(g["path"], set())
+                                                                       or key in calls.get(g["path"], set())):
+                                cands.append(n_)
+                else:
+                    for n_, gs in names.items():
+                        gs_m = [g for g in gs if module in g["path"]]
+                        if not gs_m or gs_m[0].get("vis_pub") and kind == "callers" and False:
+                            continue
+                        cl = {o for o, cs_ in by_owner_last.items() if n_ in cs_ and o != n_}
+                        if cl and cl == set(key) and not any(g.get("reachable") for g in gs_m):
+                            cands.append(n_)
+                cands = sorted(set(cands))
+                if len(cands) == 1 and len(names.get(cands[0], [])) <= 2 and _re.fullmatch(r"[A-Za-z_][A-Za-z0-9_]*", cands[0]) \
+                        and cands[0] not in [r_[3] for r_ in ROLES]:
+                    renames.append((cands[0], want))
+            if not renames:
+                break
+            txt = _json.dumps(j)
+            for gname, want in renames:
+                txt = _re.sub(r"::" + gname + r"(?![A-Za-z0-9_])", "::" + want, txt)
+            j = _json.loads(txt)
+            for f in j["fns"]:
+                for gname, want in renames:
+                    if last(f["path"].split("::{closure")[0]) == want:
+                        f["renamed_from"] = gname
+        out[unit] = j
+    return out
+
+
 class Program:
     def __init__(self, facts, meta=None):
         global CURRENT
         CURRENT = self
         self.meta = meta or {}
         facts = elide_forwarders(facts)
+        facts = resolve_renamed(facts)
         self.units = facts
         self.fns = []
         self.by_npath = defaultdict(list)
